@@ -742,7 +742,13 @@ def monitor_c18(ctx):
             src = r.choice([nm, f'{nm} + 1', f'x = {nm}', f'f({nm}, y)', f'cfg = {{key: {nm}, "n": count}}\ncfg'])
         else:
             src = r.choice(['cfg = {key: limit, "n": count}\ncfg', 'a.b(c | d(e), f => g)', 'x = [p, q][r:s]', 'del m[k]; m[j] += v', 'list(a, dict())'])
-        pays.append({'src': src, 'names': {'user': {'name': 'Ann'}, 'a': 1, 'order': [1, 2], 'x': 2, 'y': [1, 2, 3], 'key': 'k', 'limit': 3, 'count': 4}})
+        pay = {'src': src, 'names': {'user': {'name': 'Ann'}, 'a': 1, 'order': [1, 2], 'x': 2, 'y': [1, 2, 3], 'key': 'k', 'limit': 3, 'count': 4}}
+        if i % 6 == 1:
+            PRE = [['eval', 'zq1 = %zq 4% * zq3\nzq1 +', 0], ['eval', 'zq1 = zq2\nzq6 = zq3 )', 0], ['parse', 'zq1 = zq2; zq7(zq3,\n[zq5', 0], ['names', 'zq1(zq2, [zq3, zq5])', 3],
+                   ['eval', 'zq1 = zq2 + zq3; zq1', 0], ['eval', 'zq8 = v => v + zq2\nzq8(1) +', 0], ['parse', 'zq1\nzq2\n$', 0], ['names', 'zq1\n$\nzq2', 9],
+                   ['eval', 'zq1 = zq_undefined', 0], ['eval', 'zq5.push(zq2)\nzq5[9]', 0], ['parse', 'zq1 = 1\n\nzq2 zq3', 0]]
+            pay['pre'] = [r.choice(PRE) for _ in range(r.randint(1, 3))]
+        pays.append(pay)
     return _run('c18', 'c18', pays, 'list_names vs an identifier scanner written from the property text; keys requested from a recording names '
                 'mapping during eval (plain and caching parser, list_names repeated after eval) must be listed or implicit')
 
